@@ -72,9 +72,7 @@ pub fn create_module() -> Scope {
         Value::ArgList(args) => Ok(Value::scalar(args.len() as i64)),
         Value::List(v, _, _) => Ok(Value::scalar(v.len() as i64)),
         Value::Map(m) => Ok(Value::scalar(m.len() as i64)),
-        // A null value is considered eqivalent to an empty list
-        Value::Null => Ok(Value::scalar(0)),
-        // Any other value is a singleton list of that value
+        // Any other value (including null) is a singleton list of that value
         _ => Ok(Value::scalar(1)),
     });
     def!(f, separator(list), |s| {
